@@ -33,8 +33,11 @@ GMD_KEYS = ["tree", "rel", "phylogeny", "cafe\u0301", "50%"]
 def gen_gmd(rng):
     if rng.random() < 0.55:
         return None
-    keys = rng.sample(GMD_KEYS, rng.choice([1, 1, 2, 3]))
-    return {k: (rng.choice(GMD_TYPES), rng.choice(GMD_PAYLOADS)) for k in keys}
+    keys = rng.sample(GMD_KEYS, rng.choice([1, 1, 2, 3, 4]))
+    # an entry is a (data type, payload) pair or, as from_hdf5 leaves it, the payload alone; both forms may sit
+    # on one axis in any order (e.g. after add_group_metadata on a loaded table)
+    return {k: (rng.choice(GMD_PAYLOADS) if rng.random() < 0.35 else (rng.choice(GMD_TYPES), rng.choice(GMD_PAYLOADS)))
+            for k in keys}
 
 
 ROUTES = core.ROUTES + ["sort_order", "subsample_full", "filter_half", "accessors", "copy", "dok"]
@@ -307,7 +310,8 @@ def gen_ids(rng, n, prefix):
 POOL = [("grp", "text"), ("na/me", "text"), ("désc", "text"), ("depth", "int"), ("big/int", "int"),
         ("ph", "float"), ("flag", "bool"), ("a/b/c", "float"), ("/lead", "bool"), ("trail/", "text")]
 # names that only LOOK like the reserved hierarchical ones (other case, prefix, suffix): ordinary categories
-NASTY_NAMES = ["pct%", "%(id)s", "{brace}", "#hash", "back\\slash", " lead", "trail ", "cafe\u0301", "caf\u00e9", "\"q"]
+NASTY_NAMES = ["id", "type", "shape", "nnz", "ids", "matrix", "metadata", "group-metadata", "generated-by", "S1", "Oa",
+               "pct%", "%(id)s", "{brace}", "#hash", "back\\slash", " lead", "trail ", "cafe\u0301", "caf\u00e9", "\"q"]
 LOOKALIKES = ["TAXONOMY", "taxonomy2", "kegg_pathways", "Collapsed_IDs", "KEGG_pathways", "xtaxonomy", "Taxonomy "]
 FLAT_TAX = ["k__A; p__x", "k__B", "", " k__C ;p__y; c__z ", "k__D;;c__q", "k__β; p__x y", "k__A;p__x;c__y;o__z"]
 
@@ -338,9 +342,10 @@ def gen_md(rng, ids, axis, flat_ok=False):
             if kind == "text":
                 e[name] = rng.choice(TEXTS)
             elif kind == "int":
-                e[name] = rng.choice([0, 1, -3, 7, 2 ** 40, -2 ** 62, rng.randint(-1000, 1000)])
+                e[name] = rng.choice([0, 1, 1, -3, 7, 2 ** 40, -2 ** 62, rng.randint(-1000, 1000)])
             elif kind == "float":
-                e[name] = core.gen_value(rng, rng.choice(["dyadic", "neg", "tiny", "big", "bits"]))
+                e[name] = rng.choice([1.0, 0.0]) if rng.random() < 0.2 else \
+                    core.gen_value(rng, rng.choice(["dyadic", "neg", "tiny", "big", "bits"]))
             elif kind == "bool":
                 e[name] = rng.random() < 0.5
             elif kind == "flat":
@@ -350,6 +355,15 @@ def gen_md(rng, ids, axis, flat_ok=False):
                 v = ["%s__%s" % ("kpcofgs"[j], rng.choice(["A", "β", "x y", "q/r", "Z" * 12, "cafe\u0301", "50%", "\"q", "ls\u2028", " sp "])) for j in range(lvl)]
                 e[name] = tuple(v) if kind == "tuple" else v
         md.append(e)
+    if rng.random() < 0.5:
+        # the same categories on every ID, inserted in a different order (records from different sources,
+        # add_metadata calls reaching the IDs in another order, JSON objects with other key orders)
+        out = []
+        for e in md:
+            ks = list(e)
+            rng.shuffle(ks)
+            out.append({k: e[k] for k in ks})
+        md = out
     return md
 
 
@@ -418,7 +432,7 @@ def gen_case(rng, quick=True, empty_axes=True, flat_tax=False, allow_group=True)
             "poke": rng.randint(0, 10 ** 6), "layout": rng.choice([None, None, "csc", "csr", "coo", "csc_unsorted"]),
             # how the writer is called: keywords / positional, pathlib path, explicit defaults, benign format_fs
             "call": rng.choice(["plain", "plain", "keywords", "pathlib", "format_fs_empty", "format_fs_unused",
-                                "format_fs_default_f"]),
+                                "format_fs_default_f", "flag_types"]),
             # what lies at the path before the write (the same path is re-used for every case anyway)
             "stale": rng.choice([None, None, None, "json", "garbage", "hdf5"]),
             "tz": rng.random() < 0.2,                       # timezone-aware creation date
@@ -701,6 +715,11 @@ def build_table(case, tmp=None):
                 t = biom.load_table(path)
             except Exception as e:                  # noqa: BLE001
                 raise Unobservable("load", e)
+            for axis in ("observation", "sample"):
+                g = t.group_metadata(axis)
+                if g and rng.random() < 0.5:        # give the first entry its data type again (public call)
+                    k0 = list(g)[0]
+                    t.add_group_metadata({k0: ("newick", g[k0])}, axis=axis)
         finally:
             if os.path.exists(path):
                 os.remove(path)
@@ -855,6 +874,11 @@ def write_file(case, t, path, tmp=None):
         sib = build_table(sib_case, tmp)
         order = [(case, t), (sib_case, sib)] if case["group"]["pos"] == 0 else [(sib_case, sib), (case, t)]
         with h5py.File(path, "w") as f:
+            # something else lives at the root of the file, next to the groups that hold the tables
+            f.attrs["id"] = "not a table"
+            f.attrs["shape"] = [99, 99]
+            f.create_dataset("notes", data=[1, 2, 3])
+            f.create_group("observation").create_dataset("ids", data=[b"decoy"])
             for k, (cs, tab) in enumerate(order):
                 g = f.create_group("run%d" % (k + 1))
                 if cs["writer"] == "save_table":
@@ -881,6 +905,10 @@ def write_file(case, t, path, tmp=None):
                 fs = {k: bt.general_formatter for k in ("grp", "depth", "ph", "flag", "na/me", "TAXONOMY")}
                 fs.update({k: bt.vlen_list_of_str_formatter for k in SPECIAL})
                 t.to_hdf5(f, case["generated_by"], compress=case["compress"], creation_date=date, format_fs=fs)
+            elif call == "flag_types":
+                import numpy as np
+                flag = (np.True_ if case["compress"] else np.False_) if case.get("poke", 0) % 2 else int(case["compress"])
+                t.to_hdf5(f, case["generated_by"], compress=flag, creation_date=date)
             else:
                 t.to_hdf5(f, case["generated_by"], compress=case["compress"], creation_date=date)
         return case["generated_by"], date
